@@ -69,6 +69,11 @@ func (plugin *CachingPlugin) OnResponse(
 	remedyConfig *sharedConfig.CachingConfig,
 	pathParams map[string]string,
 ) (actions.RespLunarAction, error) {
+	if onResponse.GatewayGenerated {
+		// Only provider responses are cached: an answer the gateway produced itself
+		// (a throttling rejection, a fixed response...) must not be replayed later.
+		return &actions.NoOpAction{}, nil
+	}
 	bodySize := len([]byte(onResponse.Body))
 	if bodySize > remedyConfig.MaxRecordSizeBytes {
 		log.Debug().Msgf("Response too big, received body size: %+v, "+
